@@ -302,6 +302,9 @@ structure PercCols where
   peptide : Nat
   score : Nat
   pep : Nat
+  /-- `get_header_col("filename")` (not required: `none` = the code's −1).  The cell is READ for every
+      row when the column exists; its value is used by the prosit branch only. -/
+  filename : Option Nat := none
 deriving Repr, DecidableEq
 
 /-- native Percolator (`psmid`), mokapot (`specid`), ms2rescore (`spectrum_id`); all `required`
@@ -315,7 +318,7 @@ def percCols (hdrOrig : Row) : Except String PercCols :=
     let _ ← colIdx hdr "q-value"
     let pep ← colIdx hdr "posterior_error_prob"
     let _ ← colIdx hdr "proteinids"
-    pure { id, peptide, score, pep }
+    pure { id, peptide, score, pep, filename := indexOf? "filename" hdr }
   else if hdr.contains "specid" then do
     let id ← colIdx hdr "specid"
     let peptide ← colIdx hdr "peptide"
@@ -323,24 +326,60 @@ def percCols (hdrOrig : Row) : Except String PercCols :=
     let _ ← colIdx hdr "mokapot q-value"
     let pep ← colIdx hdr "mokapot pep"
     let _ ← colIdx hdr "proteins"
-    pure { id, peptide, score, pep }
+    pure { id, peptide, score, pep, filename := indexOf? "filename" hdr }
   else if hdr.contains "spectrum_id" then
     .error "ms2rescore_not_modelled"
   else .error "unknown_result_format"
 
-/-- a raw result file (header + rows of fields, score/PEP already in written form) → `ResultRow`s -/
+/-- the cells `parse_percolator_out_file_to_dict` reads from one data row — a result row as a
+    header-indexed record reduced to the columns that are looked at: `peptide`, score, PEP, the
+    optional `filename` column (`""` when the file has none) and the identifier -/
+structure ResultCells where
+  psmId : String
+  peptide : String
+  score : String
+  pep : String
+  filename : String
+deriving Repr, DecidableEq, Inhabited
+
+/-- `filename = ""; if filename_col >= 0: filename = row[filename_col]` -/
+def filenameCell (c : PercCols) (r : Row) : Except String String :=
+  match c.filename with
+  | none => .ok ""
+  | some f => field r f
+
+/-- order of evaluation in `parse_percolator_out_file_to_dict`: peptide, score, pep, filename, id
+    (each a possible IndexError on a short row) -/
+def rowCells (c : PercCols) (r : Row) : Except String ResultCells := do
+  let peptide ← field r c.peptide
+  let score ← field r c.score
+  let pep ← field r c.pep
+  let filename ← filenameCell c r
+  let psmId ← field r c.id
+  pure { psmId, peptide, score, pep, filename }
+
+/-- what the andromeda branch hands to `parse_andromeda_psmid_and_peptide`: NOT the filename cell -/
+def ResultCells.andromeda (x : ResultCells) : ResultRow :=
+  { psmId := x.psmId, peptide := x.peptide, score := x.score, pep := x.pep }
+
+/-- a raw result file (header + rows of fields, score/PEP already in written form) → the cells read -/
+def resultCellsOf (file : List Row) : Except String (List ResultCells) :=
+  match file with
+  | [] => .error "no_header"
+  | hdr :: rows => do
+    let c ← percCols hdr
+    rows.mapM (rowCells c)
+
+/-- a raw result file (header + rows of fields, score/PEP already in written form) → `ResultRow`s
+    (`--pout_input_type andromeda`, the default) -/
 def resultRowsOf (file : List Row) : Except String (List ResultRow) :=
   match file with
   | [] => .error "no_header"
   | hdr :: rows => do
     let c ← percCols hdr
     rows.mapM (fun r => do
-      -- order of evaluation in parse_percolator_out_file_to_dict: peptide, score, pep, id
-      let peptide ← field r c.peptide
-      let score ← field r c.score
-      let pep ← field r c.pep
-      let psmId ← field r c.id
-      pure { psmId, peptide, score, pep })
+      let x ← rowCells c r
+      pure x.andromeda)
 
 /-- `merge` from raw result files -/
 def mergeRaw (resultFiles : List (List Row)) (files : List (List Row)) : Except String (List Row) := do
